@@ -60,6 +60,10 @@ type LeaseManager struct {
 	mu      sync.RWMutex
 	owned   map[string]struct{} // key: resource identifier
 	session *concurrency.Session
+	// acquired counts, per resource, how often this manager has (re)gained
+	// ownership. It only grows; callers use it to notice that ownership was
+	// lost and regained in between two requests.
+	acquired map[string]uint64
 
 	acquireFlight singleflight.Group
 
@@ -92,6 +96,7 @@ func NewLeaseManager(client *clientv3.Client, cfg LeaseManagerConfig) *LeaseMana
 		logger:       logger,
 		resourceKind: kind,
 		owned:        make(map[string]struct{}),
+		acquired:     make(map[string]uint64),
 	}
 }
 
@@ -179,6 +184,7 @@ func (m *LeaseManager) doAcquire(ctx context.Context, resourceID string) error {
 		return fmt.Errorf("session changed during acquire")
 	}
 	m.owned[resourceID] = struct{}{}
+	m.acquired[resourceID]++
 	m.mu.Unlock()
 
 	m.logger.Info(fmt.Sprintf("acquired %s lease", m.resourceKind),
@@ -208,6 +214,7 @@ func (m *LeaseManager) reacquire(ctx context.Context, resourceID, leaseKey strin
 		return fmt.Errorf("session changed during reacquire")
 	}
 	m.owned[resourceID] = struct{}{}
+	m.acquired[resourceID]++
 	m.mu.Unlock()
 
 	m.logger.Info(fmt.Sprintf("reacquired %s lease", m.resourceKind),
@@ -280,6 +287,16 @@ func (m *LeaseManager) Owns(resourceID string) bool {
 	_, ok := m.owned[resourceID]
 	m.mu.RUnlock()
 	return ok
+}
+
+// Generation returns how many times this manager has acquired the resource.
+// The value changes exactly when ownership is gained, so state derived from
+// the resource under an older generation may predate another owner's writes.
+func (m *LeaseManager) Generation(resourceID string) uint64 {
+	m.mu.RLock()
+	g := m.acquired[resourceID]
+	m.mu.RUnlock()
+	return g
 }
 
 // Release explicitly gives up ownership of a single resource.
